@@ -16,8 +16,8 @@ SPEC = {
 
 RULE = ("virtual files of 120-620 bytes assembled from instances and near-misses of 2-5 patterns drawn from 13 kinds (text, nocase, wide, fullword, xor, "
         "hex with jumps, chained hex with a 210-260 gap, greedy regexps, word boundaries, wildcards, base64), at offset 0 and at the last byte too; "
-        "partitions with 0-5 random cuts (through matches), dropped segments (gaps), segments extended by up to 11 bytes (overlaps), repeated "
-        "blocks, empty blocks, shuffled delivery; context size 0/3/16; block scanner fresh / converted from a used Scanner / reused after a "
+        "partitions with 0-5 random cuts (through matches), dropped segments (gaps), segments extended by up to 11 bytes, arbitrary overlapping blocks, a shorter/longer block at the base "
+        "of another, repeated blocks, empty blocks (also at a used base), no block at all, shuffled delivery; context size 0/3/16; block scanner fresh / converted from a used Scanner / reused after a "
         "finished sequence; rules using `$p`, `$p at K`, `$p in (a..b)`, `#p >= n`. Reference: yara_x::Scanner::scan on every block alone. "
         "Plus 30 whole-file cases (filesize, uintN, hash, module fields, math x three histories). Distinct by (patterns, blocks, file prefix).")
 
@@ -47,11 +47,12 @@ MANIFEST = {
                    "block's base, with exactly the shifted start offsets (none lost, none spanning two blocks); the model is compared with "
                    "blocks::Scanner on generated partitions, and the property (including Match::data bytes, context windows clipped to the block, "
                    "absolute offsets for at/in/#) is evaluated on the implementation's outputs against yara_x::Scanner run on each block alone. "
-                   "The whole-file clause is derived from the source-generated state model of C04: refuted with witnesses (re-found on the "
-                   "implementation), proved for scanners born as block scanners."),
+                   "The whole-file clause is derived from the source-generated state model of C04: proved for every history (filesize, module "
+                   "fields, hash/math caches are as in a fresh block scanner when a sequence starts)."),
     "level_note": ("Trusted: Coq kernel, harness, translator (whole-file part). The per-block search itself (atoms, verification, chains) is not "
-                   "modelled here: it is the abstract scan_one, tied to the implementation differentially. Known findings: whole-file notions "
-                   "defined in block mode after a contiguous scan / another scanner's scan; finish() without any scanned block panics."),
+                   "modelled here: it is the abstract scan_one, tied to the implementation differentially. Seven defects found by this check were "
+                   "repaired (whole-file notions defined in block mode, panics with no block / overlapping blocks / a shorter block at the same "
+                   "base); per-thread caches of format modules that are not scan-scoped remain a known finding of C04."),
     "technique": "Coq proof over a rebase/merge model with an abstract per-block search + differential comparison against per-block scans (vm_compute) + source-generated state model",
     "design_ref": "DESIGN.md section 4, C14",
 }
